@@ -551,25 +551,38 @@ def _shared_ir(t, dflt, with_pk):
 def _shared(f2):
     def body(f1, t, dflt, with_pk):
         """emitting into f2 from an interface description that was ALREADY emitted into f1 gives what a fresh copy gives; the description itself is unchanged"""
+        from chx.shim import REPLAYING
+
         fm1 = _pick(HIST_FORMATS, f1)
-        ir, ref = _shared_ir(t, dflt, with_pk), _shared_ir(t, dflt, with_pk)
-        try:
-            fresh = _emit_only(f2, _shared_ir(t, dflt, with_pk))
-        except Exception:
-            return ""  # the later emitter rejects this interface anyway
-        try:
-            _emit_only(fm1, ir)
-        except Exception:
-            pass
-        if repr(ir) != repr(ref):
-            return "the %s emitter modified the interface description it was given: %r -> %r" % (fm1, dict(ref["params"]), dict(ir["params"]))
-        try:
-            after = _emit_only(f2, ir)
-        except Exception as e:
-            after = "raised %s" % type(e).__name__
-        if after != fresh:
-            return "%s emission differs when the same interface description was first emitted as %s" % (f2, fm1)
-        return ""
+        typ = _pick(SHARED_TYPES, t)
+        t, dflt, with_pk = SHARED_TYPES.index(typ), bool(dflt), bool(with_pk)  # concrete from here on
+
+        def run():
+            ir, ref = _shared_ir(t, dflt, with_pk), _shared_ir(t, dflt, with_pk)
+            try:
+                fresh = _emit_only(f2, _shared_ir(t, dflt, with_pk))
+            except Exception:
+                return ""  # the later emitter rejects this interface anyway
+            try:
+                _emit_only(fm1, ir)
+            except Exception:
+                pass
+            if repr(ir) != repr(ref):
+                return "the %s emitter modified the interface description it was given: %r -> %r" % (fm1, dict(ref["params"]), dict(ir["params"]))
+            try:
+                after = _emit_only(f2, ir)
+            except Exception as e:
+                after = "raised %s" % type(e).__name__
+            if after != fresh:
+                return "%s emission differs when the same interface description was first emitted as %s" % (f2, fm1)
+            return ""
+
+        if REPLAYING():
+            return run()
+        from crosshair.tracers import NoTracing
+
+        with NoTracing():  # the arguments are concrete: the emitters run at native speed on the real objects
+            return run()
 
     return body
 
@@ -579,5 +592,6 @@ for _f2 in HIST_FORMATS:
        tier="quick" if _f2 in ("class", "json_schema", "sqlalchemy", "docstring") else "thorough",
        funcs=["cdd.class_.emit.class_", "cdd.function.emit.function", "cdd.argparse_function.emit.argparse_function", "cdd.pydantic.emit.pydantic", "cdd.json_schema.emit.json_schema",
               "cdd.docstring.emit.docstring", "cdd.sqlalchemy.emit.sqlalchemy", "cdd.sqlalchemy.emit.sqlalchemy_table", "cdd.sqlalchemy.emit.sqlalchemy_hybrid"],
+       assumes=["SOLVER-ENUMERATED: the four arguments are the only symbolic values; once a path has fixed them the emitters run untraced on the real objects"],
        bound="ONE interface description object (parameter of type among %r, default present/absent, with or without an explicit [PK] column) is emitted by ANY of the %d emitters and then "
              "as %s (solver-enumerated): the description is unchanged by the first emitter and the second emission equals the emission from a fresh copy" % (SHARED_TYPES, len(HIST_FORMATS), _f2))(_shared(_f2))
